@@ -23,7 +23,7 @@ Definition sub_of (cls : list scl) (q : sreq) : list Z :=
 
 (* endpoint object carrying a given name (names are unique in a scenario) *)
 Definition eo_of (s : st) (n : Z) : Z :=
-  match find (fun e => ename e =? n) (eps s) with Some e => eobj e | None => -1 end.
+  match find (fun e => elive e && (ename e =? n)) (eps s) with Some e => eobj e | None => -1 end.
 
 Fixpoint index_of (x : Z) (l : list Z) (k : nat) : option nat :=
   match l with [] => None | y :: r => if x =? y then Some k else index_of x r (S k) end.
@@ -40,10 +40,27 @@ Definition choice_for (s : st) (id : Z) (want : Z) : nat :=
 Fixpoint seqn (k : Z) (n : nat) : list Z := match n with O => [] | S m => k :: seqn (k + 1) m end.
 
 
+Definition cl_pre (cls : list scl) (ci : nat) : list (list Z) := match nth_error cls ci with Some c => s_pre c | None => [] end.
+
+(* server list of one pre-history sync: endpoint k of the cluster with state 1 (enabled) or 2 (disabled) *)
+Fixpoint servers_of (names : list Z) (states : list Z) : list (Z * bool) :=
+  match names, states with
+  | n :: nr, x :: xr => (if x =? 0 then [] else [(n, x =? 2)]) ++ servers_of nr xr
+  | _, _ => []
+  end.
+
+Definition all_on (names : list Z) : list (Z * bool) := map (fun n => (n, false)) names.
+
+(* every sync of the pre-history, then the sync that lists everything enabled; every probe that can be
+   answered is answered 200 after each sync (the stub upstreams answer /healthz at once) *)
+Definition answer_all (s : st) : st := run code_ctxcheck s (map (fun e => OHealthy (eobj e)) (eps s)).
+
+Definition setup_cluster (cls : list scl) (s : st) (ci : nat) : st :=
+  let syncs := map (servers_of (ep_names cls ci)) (cl_pre cls ci) ++ [all_on (ep_names cls ci)] in
+  fold_left (fun acc sv => answer_all (run code_ctxcheck acc [OUpsert (cl_name cls ci) (cl_aliases cls ci) sv])) syncs s.
+
 Definition setup (cls : list scl) : st :=
-  let s1 := run code_ctxcheck init (map (fun ci => OUpsert (cl_name cls ci) (cl_aliases cls ci) (ep_names cls ci))
-                          (seq 0 (List.length cls))) in
-  run code_ctxcheck s1 (map (fun e => OHealthy (eobj e)) (eps s1)).
+  fold_left (setup_cluster cls) (seq 0 (List.length cls)) init.
 
 (* bring request number id to its phase *)
 Definition bring (cls : list scl) (s : st) (id : Z) (q : sreq) (o : robs) : st :=
@@ -65,7 +82,7 @@ Definition act_op (cls : list scl) (act : saction) : list op :=
   | ADelete ci => [ODelete (cl_name cls ci)]
   | ARemove ci eps =>
       [OUpsert (cl_name cls ci) (cl_aliases cls ci)
-               (filter (fun n => negb (zin (n - offset cls ci) eps)) (ep_names cls ci))]
+               (all_on (filter (fun n => negb (zin (n - offset cls ci) eps)) (ep_names cls ci)))]
   | ANone => []
   end.
 
@@ -123,7 +140,8 @@ Definition cl_agrees (cls : list scl) (s0 s : st) (evs : list event) (ci : nat) 
       && all2 (fun n (e : eobs) =>
                  match find_ep s (eo_of s0 n) with
                  | Some x => Bool.eqb (elive x) (o_inmap e) && Bool.eqb (ep_done s x) (o_ectx e)
-                             && Bool.eqb (existsb (is_probe (eobj x)) evs) (1 <=? o_hits e)
+                             && Bool.eqb (existsb (fun y => (ename y =? n) && existsb (is_probe (eobj y)) evs) (eps s))
+                                         (1 <=? o_hits e)
                  | None => false
                  end) (ep_names cls ci) (o_eps c)
   end.
